@@ -202,7 +202,7 @@ async fn async_writer(req: &Value) -> R {
         _ => {
             pause_before_commit(req);
             let cw0 = wall_ms();
-            let sri = w.commit().await.map_err(|e| commit_err(&e, cache))?;
+            let sri = w.commit().await.map_err(|e| commit_err(&e, cache, req))?;
             Ok(json!({"sri":sri.to_string(),"written":total,"calls":calls,"commit_w0":cw0.to_string(),
                       "write_errors":write_errors,"cancelled":cancelled}))
         }
@@ -278,7 +278,7 @@ async fn async_handle(req: &Value) -> R {
                 drop(w);
                 return Ok(json!({"dropped":true}));
             }
-            let sri = w.commit().await.map_err(|e| commit_err(&e, cache))?;
+            let sri = w.commit().await.map_err(|e| commit_err(&e, cache, req))?;
             Ok(json!({"sri":sri.to_string()}))
         }
     }
